@@ -155,4 +155,82 @@ Proof.
       repeat split; try congruence; unfold dz_wf, dz_avail_out in *; wsimpl; try rewrite app_length; try lia; auto.
     + intuition.
 Qed.
+
+(* ---- what a decompress-like function on the rest of the chain guarantees when called from a clean state with a block that
+   fits the buffer: message_len untouched, at most one refused block on top of the bound, HTP_OK only from a clean state *)
+Definition dz_next_ok (f : dz_next_t OT) : Prop :=
+  forall ls d (w : world) ls' w' rc, f ls d w = (ls', w', rc) ->
+    Forall dz_wf ls -> (length (dd_bytes d) <= dz_BUF)%nat -> dz_clean w ->
+    w_message OT w' = w_message OT w /\ Forall dz_wf ls' /\ w_entity OT w <= w_entity OT w' /\
+    w_entity OT w' <= dz_M w + Z.of_nat dz_BUF /\ (rc = c_HTP_OK -> dz_clean w').
+
+Section OneLayer.
+Variable next : dz_next_t OT.
+Hypothesis Hnext : dz_next_ok next.
+
+Lemma dz_callback_clean d (w : world) w' rc :
+  dz_callback OT c d w = (w', rc) -> dz_clean w ->
+  w_message OT w' = w_message OT w /\ w_entity OT w <= w_entity OT w' /\
+  w_entity OT w' <= dz_M w + dz_len d /\ (rc = c_HTP_OK -> dz_clean w').
+Proof.
+  intros H Hc. apply dz_callback_spec in H. destruct H as (Hm & He & Hok). unfold dz_clean in Hc.
+  pose proof (dz_len_nonneg d). repeat split; auto; lia.
+Qed.
+
+Lemma dz_deliver_spec l rest dd (w : world) rest' w' crc :
+  dz_deliver OT c next l rest dd w = (rest', w', crc) ->
+  Forall dz_wf rest -> (length (dd_bytes dd) <= dz_BUF)%nat -> dz_clean w ->
+  w_message OT w' = w_message OT w /\ Forall dz_wf rest' /\ w_entity OT w <= w_entity OT w' /\
+  w_entity OT w' <= dz_M w + Z.of_nat dz_BUF /\ (crc = c_HTP_OK -> dz_clean w').
+Proof.
+  unfold dz_deliver. intros H Hr Hd Hc.
+  assert (Hcb : forall rest0, (let '(w0, rc) := dz_callback OT c dd w in (rest0, w0, rc)) = (rest', w', crc) -> Forall dz_wf rest0 ->
+     w_message OT w' = w_message OT w /\ Forall dz_wf rest' /\ w_entity OT w <= w_entity OT w' /\
+     w_entity OT w' <= dz_M w + Z.of_nat dz_BUF /\ (crc = c_HTP_OK -> dz_clean w')).
+  { intros rest0. destruct (dz_callback OT c dd w) as [w0 rc0] eqn:Hcb. intros Hx Hr0. inversion Hx; subst.
+    apply dz_callback_clean in Hcb; auto. unfold dz_len in Hcb. destruct Hcb as (?&?&?&?). repeat split; auto; lia. }
+  destruct rest as [|l2 r2].
+  - apply Hcb in H; auto.
+  - destruct (negb (dz_zinit l =? 0)).
+    + eapply Hnext in H; eauto.
+    + apply Hcb in H; auto.
+Qed.
+
+(* state of the loop: everything delivered so far was accepted *)
+Definition dz_good (w0 : world) l (rest : list dz_layer) (w : world) : Prop :=
+  dz_wf l /\ Forall dz_wf rest /\ dz_clean w /\ w_message OT w = w_message OT w0 /\ w_entity OT w0 <= w_entity OT w /\ dz_pass l = false.
+(* state at a return of the layer: at most one refused block B, and a refusal leaves this layer shut down *)
+Definition dz_fin (B : Z) (w0 : world) l (rest : list dz_layer) (w : world) (r : Z) : Prop :=
+  dz_wf l /\ Forall dz_wf rest /\ w_message OT w = w_message OT w0 /\ w_entity OT w0 <= w_entity OT w /\
+  w_entity OT w <= dz_M w0 + B /\ (r = c_HTP_OK -> dz_clean w) /\ (dz_clean w \/ (dz_zinit l = 0 /\ dz_pass l = false)).
+
+Lemma dz_good_fin B w0 l rest w r : 0 <= B -> dz_good w0 l rest w -> dz_fin B w0 l rest w r.
+Proof.
+  intros HB (Hwf & Hr & Hc & Hm & He & Hp). unfold dz_fin. repeat split; auto.
+  unfold dz_clean in Hc. rewrite (dz_M_eq _ _ Hm) in Hc. lia.
+Qed.
+
+Lemma dz_wf_reset l : dz_wf (dz_set_obuf l []).
+Proof. unfold dz_wf. wsimpl. cbn. lia. Qed.
+
+Lemma dz_flush_full_spec B w0 l rest w :
+  Z.of_nat dz_BUF <= B -> dz_good w0 l rest w ->
+  match dz_flush_full OT ask c next l rest w with
+  | inl (l', rest', w') => dz_good w0 l' rest' w'
+  | inr (l', rest', w', r) => dz_fin B w0 l' rest' w' r
+  end.
+Proof.
+  intros HB Hg. pose proof Hg as (Hwf & Hr & Hc & Hm & He & Hp). unfold dz_flush_full.
+  destruct (dz_avail_out l =? 0)%nat; [|exact Hg].
+  destruct (dz_deliver OT c next l rest (dz_some (dz_obuf l)) w) as [[rest1 w1] crc] eqn:Hd.
+  apply dz_deliver_spec in Hd; auto. destruct Hd as (Hm1 & Hr1 & He1 & Hb1 & Hok1).
+  destruct (negb (crc =? c_HTP_OK)) eqn:Hcrc.
+  - destruct (dz_end OT ask l w1) as [l2 w2] eqn:Hend. apply dz_end_spec in Hend. destruct Hend as (He2 & Hm2 & Ho2 & Hp2 & Hz2).
+    unfold dz_fin. wsimpl. repeat split; auto using dz_wf_reset; try congruence; try lia.
+    all: try (rewrite (dz_M_eq _ _ Hm) in Hb1; lia).
+    all: try (intros Hx; subst crc; rewrite Z.eqb_refl in Hcrc; discriminate).
+    all: try (right; split; congruence).
+  - apply negb_false_iff, Z.eqb_eq in Hcrc. unfold dz_good. wsimpl. repeat split; auto using dz_wf_reset; try congruence; try lia.
+Qed.
+End OneLayer.
 End Bound.
